@@ -367,7 +367,7 @@ def check(ctx):
 
     ctx.rule("R7", "... to a client unchanged: what both clients install from the served segment chain is the chain's bytes, in order, once - also when a segment is lost and the transfer is asked for again (C01's install / append / fresh-assembly obligations on both structure classes borrowed)")
     from . import c01 as _c01
-    _c01.sync_assembly(ctx.borrowed("R7", "C01", only=("R1", "R2", "R4")), repo)
+    _c01.sync_assembly(ctx.borrowed("R7", "C01", only=("R1", "R2", "R3", "R4")), repo)
     _c01.async_assembly(ctx.borrowed("R7", "C01", only=("R1", "R2", "R3", "R4")), repo)
     ctx.rule("R8", "writer and reader composed by interpretation: three snapshots (all byte values / zeros with extreme versions / bytes that look like list punctuation, with a hyphenated pack name) written by GeckoShell.do_snapshot on a model facade and read back line by line through GeckoSnapshot.parse, in both log formats: bytes, pack type, firmware EN/CO, config and log versions and the name come back exactly")
     snapshot_round_trip(ctx, repo, "R8")
